@@ -169,7 +169,9 @@ def _free_channel(rng, used, lo):
     """None (automatic) or an explicit channel that is not in use"""
     if rng.random() < 0.3:
         return None
-    return rng.choice([c for c in range(lo, 40) if c not in list(used)])
+    # towards the ends of the 16-bit field (signed / unsigned), leaving room for the automatic channels (max + 1) that follow
+    edge = [30000, -32768] if lo < 0 else [32767, 32768, 40000, 65000]
+    return rng.choice([c for c in list(range(lo, 40)) + edge if c not in [int(x) for x in used]])
 
 
 def _geom(rng):
